@@ -782,6 +782,30 @@ impl Board {
     }
 }
 
+/// Read-only views of the fields that have no public getter.
+#[cfg(rce_verif)]
+#[allow(dead_code)]
+impl Board {
+    pub const fn verif_en_passant_file(&self) -> Option<u8> {
+        self.en_passant_file
+    }
+
+    /// The record of earlier positions, as a sorted list of keys (one entry per stored element).
+    pub fn verif_position_keys(&self) -> Vec<ZKey> {
+        let mut keys: Vec<ZKey> = self
+            .position_history
+            .iter()
+            .map(|k| *k)
+            .collect();
+        keys.sort_by_key(std::string::ToString::to_string);
+        keys
+    }
+
+    pub fn verif_history_len(&self) -> usize {
+        self.history.len()
+    }
+}
+
 impl fmt::Display for Board {
     /// Prints out a symbolic representation of the board in an 8x8 grid.
     fn fmt(&self, f: &mut fmt::Formatter) -> fmt::Result {
